@@ -10,7 +10,7 @@ import itertools
 import contextlib
 from .. import model, codecs, brackref
 from ..runner import Result, scratch
-from ..bridge import quiet, monitor, extract, mt_equal, raw_leaves
+from ..bridge import quiet, monitor, extract, mt_equal, raw_leaves, cli_options
 from .c20 import ref_parse
 
 from trees import treeinput
@@ -112,7 +112,7 @@ def check_seq(seq, ws_style, trailing, emptypos, gf_split, firstid=None):
     if gf_split:
         opts['gf_split'] = True
     if firstid is not None:
-        opts['brackets_firstid'] = firstid
+        opts.update(cli_options({'brackets_firstid': firstid}))     # as `--src-opts brackets_firstid:N` gives it
     ref_trees, status = brackref.parse(items, emptypos)
     trees_, err, so, se = run_reader(treeinput.brackets, path, 'utf-8', **opts)
     rejected = status != 'ok'
@@ -274,10 +274,10 @@ OPTION_SETS = {
                {'replace_parens': True}, {'gz': True}, {'enc': 'latin-1'}, {'enc': 'utf-16'},
                {'continuous': True, 'gf_split': True, 'replace_parens': True}],
     'brackets': [{}, {'gf_split': True}, {'gf_split': True, 'gf_separator': '#'}, {'replace_parens': True},
-                 {'brackets_firstid': 17}, {'brackets_emptypos': True}, {'gz': True}, {'enc': 'latin-1'},
+                 {'brackets_firstid': 17}, {'brackets_firstid': 0}, {'brackets_emptypos': True}, {'gz': True}, {'enc': 'latin-1'},
                  {'enc': 'utf-16'}, {'noquiet': True}, {'brackets_firstid': 5, 'gf_split': True, 'replace_parens': True}],
     'discobrackets': [{}, {'disco_reordered': True}, {'gf_split': True}, {'brackets_firstid': 9}, {'gz': True},
-                      {'replace_parens': True}],
+                      {'replace_parens': True}, {'brackets_firstid': 0, 'disco_reordered': True}],
     'tigerxml': [{}, {'continuous': True}, {'gf_split': True}, {'gf_split': True, 'gf_separator': '#'},
                  {'replace_parens': True}, {'gz': True}, {'enc': 'latin-1'}, {'enc': 'utf-16'}, {'noquiet': True},
                  {'continuous': True, 'gf_split': True, 'replace_parens': True}],
@@ -396,7 +396,7 @@ def check_corpus(fmt, mtjs, layout, opts):
                               % (detail, [model.mt_str(m.root, m.toks) for m in mts], layout, opts),
                     'what': '%s reader: %s' % (fmt, kind)})
     enc = opts.get('enc', 'utf-8')
-    ropts = {k: v for k, v in opts.items() if k not in ('gz', 'enc', 'noquiet')}
+    ropts = cli_options({k: v for k, v in opts.items() if k not in ('gz', 'enc', 'noquiet')})
     if not opts.get('noquiet'):
         ropts['quiet'] = True
     enc_kw = dict(layout)
